@@ -15,6 +15,7 @@ Record case := {
   k_ctx : ctxend;
   k_ev : option Z;        (* when the peer does what the operation waits for; None = never *)
   k_phase : Z;            (* server finish over TCP: how far the own receiver's current poll was from its end *)
+  k_tls : bool;           (* the TCP connection was upgraded to TLS before the operation *)
   o_returned : bool;      (* the operation returned within the harness's patience *)
   o_ms : Z;               (* ... after that many milliseconds *)
   o_ctxerr : bool         (* ... with an error wrapping the context's error *)
@@ -26,7 +27,15 @@ Definition model (c : case) : option (Z * tres) := run_op true (k_kind c) (k_op 
 
 Definition near (a b : Z) : bool := Z.leb (Z.abs (a - b)) tolerance.
 
+(* a Send over a connection upgraded to TLS: the write loop does not go round after a timeout *)
+Definition tls_send (c : case) : bool :=
+  k_tls c && match k_kind c, k_op c with KTcp, OpSend => true | _, _ => false end.
+
 Definition agrees (c : case) : bool :=
+  if tls_send c then
+    let (r, res) := tls_write tcp_poll (k_ctx c) (k_ev c) 0 in
+    o_returned c && near (o_ms c) r && Bool.eqb (o_ctxerr c) (match res with WCtx => true | _ => false end)
+  else
   match model c with
   | Some (r, res) =>
       o_returned c && near (o_ms c) r &&
